@@ -228,7 +228,11 @@ CLAIMED = {
              "policy or an unauthorized topic, every unnamed code changes nothing. "
              "The real consumer runs under the deterministic simulator; every per-partition boundary trace, "
              "application trace and scan must be accepted inside Coq with equal outputs, and independent monitors state the property "
-             "on the simulated logs.",
+             "on the simulated logs. "
+             "TopicPartitionState's position-keeping methods (await_reset, consumed_to, reset_to, seek, pause, resume) are "
+             "translated from source on every run; proved: their status/position invariant, when their assertions hold, and that "
+             "the consumer model moves its position and pause flag exactly as these methods do (no repositioning event the "
+             "model allows can hit an assertion of the source); differentially tested against the real class.",
         note="Trusted: Coq kernel; hand model tied by trace acceptance; which records of a batch are visible comes from the simulated "
              "log (exactness of the filter is C08's theorem); simkit and refcodec as oracle; observation wrappers installed from "
              "outside; one scheduler order per schedule (ASLR off for reproducibility). RecordTooLarge, TopicAuthorizationFailed and "
